@@ -69,6 +69,9 @@ def gen(rng, tier):
             # the level edges assigned in place on an object that was used before, then a function along LAY on that object
             c['recipes'].append(['setvg'] + [rng.randrange(1 << 20) for _ in range(6)])
             c['recipes'].append(['applylay'] + [rng.randrange(1 << 20) for _ in range(6)])
+        elif rng.random() < 0.08:
+            # the point extraction (two index lists): no variable keeps standard dimensions, none stays listed
+            c['recipes'].append(['points'] + [rng.randrange(1 << 20) for _ in range(6)])
         elif rng.random() < 0.12:
             # a last step that leaves the file for its caller to complete: createVariable in place, a copy without variables
             c['recipes'].append([rng.choice(['create', 'copynv'])] + [rng.randrange(1 << 20) for _ in range(6)])
@@ -251,6 +254,11 @@ def resolve(recipe, f):
         return ['setvg', ['%d/64' % x for x in lv]]
     if k == 'applylay':
         return ['apply', 'LAY', ['mean', 'min', 'max', 'sum', 'id', 'first2', 'rev', 'every2', 'ends'][r[1] % 9]]
+    if k == 'points':
+        if not ('ROW' in dims and 'COL' in dims and dims['ROW'] and dims['COL']):
+            return ['copy']
+        n = 1 + r[0] % 3
+        return ['points', [(r[1] + j) % dims['ROW'] for j in range(n)], [(r[2] + 2 * j) % dims['COL'] for j in range(n)]]
     if k == 'create':
         return ['create', ['NEWC', 'N234567890123456'][r[0] % 2]]
     if k == 'copynv':
@@ -337,6 +345,8 @@ def apply_op(f, op):
         return f
     if k == 'copynv':
         return f.copy(variables=False)
+    if k == 'points':
+        return f.sliceDimensions(ROW=list(op[1]), COL=list(op[2]))
     if k == 'slice':
         kw = {}
         for d, w in op[1]:
